@@ -5,6 +5,9 @@ import hir as H
 import mir as M
 import rulelib as L
 import c01
+import sym
+import symrules as SR
+import c15model as CM
 
 CRATES = ["identity_storage", "identity_stronghold", "identity_jose"]
 KIM = "identity_storage::key_id_storage::memstore::KeyIdMemstore"
@@ -164,14 +167,91 @@ def run(F, R, tier):
                 r3.require(use in ("propagated", "returned"), (fn, "alg-parse-result", use), "the result of parsing the alg is %s instead of being propagated" % use, t["sp"])
     r3.floor(4)
 
-    # ------------------------------------------------------------------ R4 sign / delete / exists / get / delete_key_id
-    r4 = R.rule("C15-R4", "T4", "a missing key id is reported (KeyNotFound / KeyIdNotFound) by sign, delete, get_key_id and delete_key_id; exists answers membership")
+    # ------------------------------------------------------------------ R4 the stores against a map model
+    r4 = R.rule("C15-R4", "T8+T4", "the mem stores evaluated abstractly on a concrete map {k0→v0, k1→v1}: insert_key_id refuses a present key and adds exactly (key, value) otherwise; get_key_id/delete_key_id/delete/sign report KeyIdNotFound/KeyNotFound for an absent id and otherwise use/remove exactly the entry stored under it; exists answers membership; nothing else in the map changes; the Stronghold key-id store reports a missing id")
+    def unchanged(fm):
+        return fm == CM.INITIAL
+
+    def j_insert(q, w, fm):
+        if w == "?":
+            return (("not-present-edge",), "insert_key_id does not compare the key with every stored entry before deciding (%s)" % q.describe()[:120])
+        if w is not None:
+            if not (SR.is_failure(q.ret) and SR.err_name(q.ret) in ("KeyIdAlreadyExists", "SingleStructError") and "KeyIdAlreadyExists" in str(q.ret) and unchanged(fm)):
+                return (("not-present-edge",), "a key that is already present is not refused with KeyIdAlreadyExists leaving the map alone: returns %s, map %s" % (q.ret, sorted(fm)))
+            return None
+        want = dict(CM.INITIAL)
+        want["key"] = ("param", "value")
+        if not (SR.is_success(q.ret) and not SR.is_failure(q.ret) and fm == want):
+            return (("inserts",), "an absent key is not stored as (key → value): returns %s, map %s" % (q.ret, {k: sym.fmt(v) for k, v in fm.items()}))
+        return None
+
+    def j_lookup(err, use):
+        def judge(q, w, fm):
+            if w == "?":
+                return None if SR.is_failure(q.ret) and unchanged(fm) else (("key-arg",), "succeeds without having located the caller's id in the map (%s)" % q.describe()[:120])
+            if w is None:
+                if not (SR.is_failure(q.ret) and err in str(q.ret)):
+                    # other rejections (wrong alg, …) may come first, but success is impossible
+                    if not SR.is_failure(q.ret):
+                        return (("not-found",), "an unknown id is not reported as %s: returns %s" % (err, q.ret))
+                return None if unchanged(fm) else (("not-found",), "an unknown id changes the map: %s" % sorted(fm))
+            return use(q, w, fm)
+        return judge
+
+    def use_get(q, w, fm):
+        v = dict(CM.ENTRIES)[w]
+        out = q.ret.fields[0] if isinstance(q.ret, sym.V) and q.ret.name == "Ok" and q.ret.fields else None
+        if not (out is not None and SR.pure(out, ("param", v)) and unchanged(fm)):
+            return (("key-arg",), "get_key_id(%s) does not return the value stored under it: %s" % (w, q.ret))
+        return None
+
+    def use_delete(q, w, fm):
+        want = {k: v for k, v in CM.INITIAL.items() if k != w}
+        if not (SR.is_success(q.ret) and not SR.is_failure(q.ret) and fm == want):
+            return (("key-arg",), "deleting %s returns %s and leaves %s: not exactly that entry removed" % (w, q.ret, sorted(fm)))
+        return None
+
+    def use_sign(q, w, fm):
+        if not unchanged(fm):
+            return (("key-arg",), "sign changes the store")
+        if SR.is_failure(q.ret):
+            return None
+        v = dict(CM.ENTRIES)[w]
+        ex = q.calls(r"expand_secret_jwk$")
+        if not (len(ex) == 1 and SR.pure(ex[0].args[0], ("param", v)) and q.succeeded(ex[0]) is True):
+            return (("key-arg",), "sign(%s) succeeds without expanding the JWK stored under that id (expanded: %s)" % (w, [sym.fmt(sym.term(e.args[0])) for e in ex]))
+        sg = [e for e in q.events if e.kind == "call" and (e.name == "sign" or (e.fn or "").endswith("::sign"))]
+        if not (sg and SR.derives(sg[-1].args[0], ("payload", ex[0].result.t, "Ok", 0)) and any(SR.pure(a_, ("param", "data")) for a_ in sg[-1].args[1:]) and SR.derives(q.ret, sg[-1].result.t)):
+            return (("key-arg",), "sign does not return the signature of `data` made with the stored key")
+        return None
+
+    def j_exists(q, w, fm):
+        if w == "?" or not unchanged(fm):
+            return (("membership",), "exists does not decide membership against the whole map, or changes it")
+        out = q.ret.fields[0] if isinstance(q.ret, sym.V) and q.ret.name == "Ok" and q.ret.fields else None
+        if out is not (w is not None):
+            return (("membership",), "exists(%s) answers %s" % (w or "an unknown id", q.ret))
+        return None
+    SIGN_OPQ = r"Jwk::(alg|try_okp_params)$|FromStr>::from_str$|FromStr::from_str$|expand_secret_jwk$|SecretKey::sign$|::sign$|EdCurve::name$|JwsAlgorithm::name$|Signature::to_bytes$|to_bytes$"
     spec = [
-        (JMS, JS, "sign", r"HashMap(<.*>)?::get$", "KeyNotFound"), (JMS, JS, "delete", r"HashMap(<.*>)?::remove$", "KeyNotFound"),
-        (KIM, KIS, "get_key_id", r"HashMap(<.*>)?::get$", "KeyIdNotFound"), (KIM, KIS, "delete_key_id", r"HashMap(<.*>)?::remove$", "KeyIdNotFound"),
-        (SH, KIS, "get_key_id", r"Store::get$", "KeyIdNotFound"), (SH, KIS, "delete_key_id", r"Store::delete$", "KeyIdNotFound"),
+        (KIM, KIS, "insert_key_id", "key_id_store", ["key", "value"], "key", j_insert, None, {"k0", "k1", None}),
+        (KIM, KIS, "get_key_id", "key_id_store", ["key"], "key", j_lookup("KeyIdNotFound", use_get), None, {"k0", "k1", None}),
+        (KIM, KIS, "delete_key_id", "key_id_store", ["key"], "key", j_lookup("KeyIdNotFound", use_delete), None, {"k0", "k1", None}),
+        (JMS, JS, "delete", "jwk_store", ["key_id"], "key_id", j_lookup("KeyNotFound", use_delete), None, {"k0", "k1", None}),
+        (JMS, JS, "exists", "jwk_store", ["key_id"], "key_id", j_exists, None, {"k0", "k1", None}),
+        (JMS, JS, "sign", "jwk_store", ["key_id", "data", "public_key"], "key_id", j_lookup("KeyNotFound", use_sign), SIGN_OPQ, {"k0", "k1", None}),
     ]
-    for ty, tr, name, op_re, err in spec:
+    for ty, tr, name, field, argn, keyn, judge, opq, wantw in spec:
+        fn = impl_fn(F, ty, tr, name)
+        if not r4.require(fn is not None, (ty, name, "ANCHOR"), "%s::%s not found" % (L.short(ty), name)):
+            continue
+        ws = CM.run_op(F, r4, fn, ty, field, argn, keyn, judge, opaque=opq, label="%s::%s" % (L.short(ty), name))
+        got = {w for w in ws if w != "?"}
+        r4.site("%s::%s agrees with the map model in the worlds %s" % (L.short(ty), name, sorted(map(str, got))))
+        r4.require(wantw <= got or not ws, (fn, "coverage"), "%s::%s: only the worlds %s were reached (expected key == k0, key == k1, absent)" % (L.short(ty), name, sorted(map(str, got))))
+    # sign: an absent key is reported as KeyNotFound on some path
+    # Stronghold key-id store (another backend: a Store behind a client, not a map): a missing id is reported
+    for ty, tr, name, op_re, err in ((SH, KIS, "get_key_id", r"Store::get$", "KeyIdNotFound"), (SH, KIS, "delete_key_id", r"Store::delete$", "KeyIdNotFound")):
         fn = impl_fn(F, ty, tr, name)
         if not r4.require(fn is not None, (ty, name, "ANCHOR"), "%s::%s not found" % (L.short(ty), name)):
             continue
@@ -180,7 +260,6 @@ def run(F, R, tier):
         ops = [n for n in H.walk(H.root(h)) if n.get("k") == "mcall" and re.search(op_re, H.fn_name(n) or "")]
         ok = False
         for op in ops:
-            # the Option result flows into ok_or(_else)(<err>) and then `?` / return
             tree = H.Tree(h)
             cur = op
             for _ in range(6):
@@ -195,17 +274,10 @@ def run(F, R, tier):
                 cur = p
         r4.site("%s::%s: absent → %s: %s" % (L.short(ty), name, err, ok))
         r4.require(ok, (fn, "not-found"), "%s::%s does not report %s for an unknown id" % (L.short(ty), name, err))
-        # the looked-up key is the caller's
         for op in ops:
             ko = H.origins(op["args"][0], env, extra=re.compile(r"MethodDigest::pack$|::as_ref$")) if op.get("args") else set()
             r4.require(bool(ko) and all(o[0] == "param" for o in ko), (fn, "key-arg"), "%s::%s does not look up the caller's id: %s" % (L.short(ty), name, sorted(map(str, ko))))
-    fn = impl_fn(F, JMS, JS, "exists")
-    if r4.require(fn is not None, (JMS, "exists", "ANCHOR"), "exists not found"):
-        h = F.bodies[fn].get("hir")
-        ok = any(n.get("k") == "mcall" and n["name"] == "contains_key" for n in H.walk(H.root(h)))
-        r4.site("JwkMemStore::exists = contains_key(key_id): %s" % ok)
-        r4.require(ok, (fn, "membership"), "exists does not answer with contains_key(key_id)")
-    r4.floor(7)
+    r4.floor(8)
 
     # ------------------------------------------------------------------ R5 lock discipline of the mem stores (type level)
     r5 = R.rule("C15-R5", "T13", "the mem stores keep their maps behind an async RwLock and no method hands out the map or a guard")
